@@ -434,16 +434,42 @@ def check_compile(ctx, rink, pdrive, n):
 
 
 # ------------------------------------------------------------------ entry points
+CLI_VOS = ["theories/Gen/CliGen.vo", "theories/Cli/Escape.vo", "theories/Cli/CliTie.vo",
+           "theories/Cli/EscapeRun.vo", "theories/Props/C20.vo"]
+
+
 def fresh_tables():
-    facts = gen_tables.run(["cli"])
-    # the tie must be re-proved against the table just written, whatever the file times say
-    for rel in ["theories/Gen/CliGen.vo", "theories/Cli/Escape.vo", "theories/Cli/CliTie.vo",
-                "theories/Cli/EscapeRun.vo"]:
-        try:
-            os.remove(os.path.join(vlib.VERIF, rel))
-        except FileNotFoundError:
-            pass
-    return facts
+    return gen_tables.run(["cli"])
+
+
+def compiled_tables_match(facts):
+    """does the COMPILED Gen/CliGen.vo hold the table that was just generated?"""
+    pre = "From Ink.Data Require Import Types.\nFrom Ink.Gen Require Import CliGen.\n"
+    try:
+        got = vlib.coq_eval(pre, ["flat_map (fun a => [fst (fst a); snd (fst a)] ++ snd a ++ [0]) cli_escape_arms "
+                                  "++ [cli_divert_mode; cli_help_mode] ++ cli_help_msg"], name="c20fresh")[0]
+    except RuntimeError:
+        return False
+    want = "".join(chr(k) + chr(c) + s + "\0" for k, c, s in facts["cli.escape_arms"]) \
+        + chr(facts["cli.divert_mode"]) + chr(facts["cli.help_mode"]) + facts["cli.help_msg"]
+    return got == want
+
+
+def prove(ctx, facts):
+    pr = ctx.proof("theories/Props/C20.v")
+    if pr["ok"] and not compiled_tables_match(facts):
+        for rel in CLI_VOS:
+            try:
+                os.remove(os.path.join(vlib.VERIF, rel))
+            except FileNotFoundError:
+                pass
+        ctx.coverage["obligations"] = ctx.coverage.get("obligations", 0) - pr["obligations"]
+        ctx.coverage["discharged"] = ctx.coverage.get("discharged", 0) - pr["discharged"]
+        ctx.notes.append("stale .vo detected for Gen/CliGen.v: table-dependent files rebuilt")
+        pr = ctx.proof("theories/Props/C20.v")
+        if pr["ok"] and not compiled_tables_match(facts):
+            raise RuntimeError("compiled Gen/CliGen.vo does not match the generated table")
+    return pr
 
 
 def help_text(facts):
@@ -457,13 +483,13 @@ def run(ctx):
     ctx.coverage["generated_tables"] = {k: v for k, v in facts.items() if k != "cli.json_formats"}
     rink = vlib.build_repo_bin("rinklecate", "rinklecate")
     pdrive = vlib.build_harness(binname="playdrive")
-    pr = ctx.proof("theories/Props/C20.v")
+    pr = prove(ctx, facts)
     okb, logb = ctx.build(["theories/Cli/EscapeRun.vo"])
     if not okb:
         raise RuntimeError("model does not build: " + logb[-1500:])
-    n = 160 if ctx.quick() else 2500
+    n = 120 if ctx.quick() else 2500
     fails, mism, stats = check_play(ctx, rink, pdrive, facts, n)
-    cfails, cstats = check_compile(ctx, rink, pdrive, 30 if ctx.quick() else 300)
+    cfails, cstats = check_compile(ctx, rink, pdrive, 20 if ctx.quick() else 300)
     fails += cfails
     bad_chars = vlib.coq_eval(PRE, ["run_bad_chars"], name="c20bad")[0]
     ctx.coverage.update(dict(
